@@ -504,3 +504,18 @@ fn u8_try_unwrap_adopted() {
     kani::assert(cnt(&b, ba) == 0 && cnt(&b, fa) == 0, "U8.try_unwrap_adopted.no_peer_record_names_the_given_up_allocation");
     core::mem::forget((r, b));
 }
+
+// ------------------------------------------------------------- vacuity canary
+/// Must FAIL: shows on every run that the pipeline (hooks, stand-in, stubs, CBMC) can refute a false claim
+/// about the real code and that harness preconditions are satisfiable.
+#[kani::proof]
+fn k_canary_must_fail() {
+    let a = Rc::new(0u8);
+    let (s, w) = any_counts();
+    kani::assume(s >= 1 && s < MAX - 1);
+    set_counts(&a, s, w);
+    a.inner().inc_strong();
+    kani::cover!(true, "CANARY-REACHED");
+    kani::assert(a.inner().strong() == s, "X.canary.kani_refutes_a_false_claim");
+    core::mem::forget(a);
+}
